@@ -225,6 +225,10 @@ func (p *ProofD) wellFormed(pk *gabikeys.PublicKey) bool {
 		if attribute == nil || i < 0 || i >= len(pk.R) {
 			return false
 		}
+		// The hash of an oversized attribute is over its magnitude only: -x would pass for a signed x.
+		if attribute.Sign() < 0 && attribute.BitLen() > int(pk.Params.Lm) {
+			return false
+		}
 		if _, hidden := p.AResponses[i]; hidden {
 			return false
 		}
